@@ -1,27 +1,8 @@
-//! Property checks for fpdec (library part: used by the vcheck binary and by the fuzz targets).
+//! Property checks for fpdec: re-exports of the group crates (used by the vcheck binary and the fuzz targets).
 
-pub mod arith;
-pub mod common;
-pub mod c01;
-pub mod c02;
-pub mod c03;
-pub mod c04;
-pub mod c05;
-pub mod c06;
-pub mod c07;
-pub mod c08;
-pub mod c09;
-pub mod c11;
-pub mod c12;
-pub mod c13;
-pub mod c14;
-pub mod c15;
-pub mod c18;
-pub mod c19;
-pub mod c20;
-pub mod guard;
-pub mod selftest;
-pub mod c10;
-pub mod c16;
-pub mod c17;
-pub mod fuzzsupport;
+pub use vcore::{arith, common, fuzzsupport, guard};
+pub use vp_arith::{c01, c02, c03, c10};
+pub use vp_arith2::{c04, c05, c16};
+pub use vp_misc::{c08, c09, c12, c13, c14, c15};
+pub use vp_sys::{c17, c19, c20};
+pub use vp_text::{c06, c07, c11, c18, selftest};
